@@ -109,6 +109,9 @@ deriving Repr
 inductive SEvent
   | mux (frames : List Frame)    -- the tunnel is readable: one `handle()` dispatches these frames
   | sock (s : Nat) (r : RecvRes) -- socket `s` is readable
+  | socks (evs : List (Nat × RecvRes))
+      -- several resolver sockets are readable in the same `runonce` pass: `select` reported them
+      -- all, and the handlers' callbacks run in the order of the `handlers` list
 deriving Repr
 
 def SSys.fail (s : SSys) (e : Err) : SSys := { s with dead := some e }
@@ -197,6 +200,24 @@ def dnsSockStep (cfg : Cfg) (s : SSys) (h : DnsH) (k : Nat) (r : RecvRes) (sc : 
   | some e => s1.fail e
   | none => s1
 
+/-- `for h in handlers: for s in h.socks: if s in ready: h.callback(s)` over the `DnsProxy`
+objects listed at the start of the pass (`hids`, in list order); the script of socket-call
+outcomes is consumed in that order; a raised exception ends the pass. -/
+def multiSock (cfg : Cfg) (evs : List (Nat × RecvRes)) : List Nat → Script → SSys → SSys
+  | [], _, s => s
+  | hid :: rest, sc, s =>
+    if s.dead.isSome then s else
+    match s.dnsH.find? (·.hid = hid) with
+    | none => multiSock cfg evs rest sc s
+    | some h =>
+      match h.socks.find? (fun k => evs.any (·.1 == k)) with
+      | none => multiSock cfg evs rest sc s
+      | some k =>
+        match evs.find? (·.1 == k) with
+        | none => multiSock cfg evs rest sc s
+        | some (_, r) =>
+          multiSock cfg evs rest (dnsCallback cfg h k r s.nextSock sc).script (dnsSockStep cfg s h k r sc)
+
 /-- The event of one `runonce` call on the listed (live) handlers. -/
 def roundEvent (cfg : Cfg) (now : Nat) (ev : SEvent) (sc : Script) (s : SSys) : SSys :=
   match ev with
@@ -211,6 +232,7 @@ def roundEvent (cfg : Cfg) (now : Nat) (ev : SEvent) (sc : Script) (s : SSys) : 
         | .error e => s.fail e
         | .ok frames => { s with out := s.out ++ frames }
       | none => s
+  | .socks evs => multiSock cfg evs (s.dnsH.map (·.hid)) sc s
 
 /-- Back in `server.main`: the sweeps, unless the round raised. -/
 def finishRound (now : Nat) (s1 : SSys) : SSys :=
@@ -241,6 +263,7 @@ inductive Op
   | sround (n : Nat) (sc : Script) -- the server reads the next `n` frames in one round
   | ssock (k : Nat) (r : RecvRes) (sc : Script)
   | sinject (frames : List Frame) (sc : Script)   -- arbitrary frames (not an honest step)
+  | smulti (evs : List (Nat × RecvRes)) (sc : Script)   -- several resolver sockets ready in one pass
 deriving Repr
 
 /-- Frames queued by the client since `old`, moved onto the tunnel. -/
@@ -262,6 +285,7 @@ def Sys.step (s : Sys) : Op → Sys
     { s with c2s := s.c2s.drop n }.afterServer (s.sv.round s.cfg s.now (.mux (s.c2s.take n)) sc)
   | .ssock k r sc => s.afterServer (s.sv.round s.cfg s.now (.sock k r) sc)
   | .sinject frames sc => s.afterServer (s.sv.round s.cfg s.now (.mux frames) sc)
+  | .smulti evs sc => s.afterServer (s.sv.round s.cfg s.now (.socks evs) sc)
 
 def Sys.run (s : Sys) (ops : List Op) : Sys := ops.foldl Sys.step s
 
@@ -450,6 +474,18 @@ def textStep (base : Cfg) (s : Sys) (line : String) : Sys × List String :=
     | some k, some e, some sc =>
       let s' := s.step (.ssock k (.err e) sc); (s', [showSStep s.sv s'.sv])
     | _, _, _ => (s, ["bad-op"])
+  | "smulti" :: evs :: rest =>
+    -- `k.d.HEX` or `k.e.ERRNO`, joined by `;`
+    let one (t : String) : Option (Nat × RecvRes) :=
+      match t.splitOn "." with
+      | [k, "d", hex] => match k.toNat?, bytesOfHex hex with
+        | some k, some d => some (k, .data ⟨[], 0, []⟩ d) | _, _ => none
+      | [k, "e", e] => match k.toNat?, e.toNat? with
+        | some k, some e => some (k, .err e) | _, _ => none
+      | _ => none
+    match (evs.splitOn ";").mapM one, parseScript rest with
+    | some evs, some sc => let s' := s.step (.smulti evs sc); (s', [showSStep s.sv s'.sv])
+    | _, _ => (s, ["bad-op"])
   | ["#flush"] => (s, [])
   | _ => (s, ["bad-op"])
 
